@@ -83,11 +83,13 @@ Theorem c39_encode_imm32_total : forall v, 0 <= v < 2 ^ 32 ->
 Proof. exact encode_imm32_total. Qed.
 Print Assumptions c39_encode_imm32_total.
 
-(* the encoder picks the smallest rotation among all representations *)
-Theorem c39_encode_imm32_smallest : forall v x rot imm8, 0 <= v < 2 ^ 32 -> encode_imm32 v = Ok x ->
+(* (implementation choice, not required by C39) the current loop returns the smallest rotation among all
+   representations. A refactoring of encode_imm32 that picks another valid rotation keeps every other C39
+   theorem (ok / rejects / total) and breaks only this one. *)
+Theorem c39_impl_choice_encode_imm32_smallest_rotation : forall v x rot imm8, 0 <= v < 2 ^ 32 -> encode_imm32 v = Ok x ->
   0 <= rot < 16 -> 0 <= imm8 < 256 -> ror32 imm8 (2 * rot) = v -> x / 256 <= rot.
 Proof. exact encode_imm32_smallest. Qed.
-Print Assumptions c39_encode_imm32_smallest.
+Print Assumptions c39_impl_choice_encode_imm32_smallest_rotation.
 
 (* ---- big-endian packing: the size base-256 digits of value mod 256^size, most significant first *)
 Theorem c39_value_to_bytes_big_endian : forall value size, 0 <= size ->
